@@ -90,6 +90,9 @@ def witnessOps : List Op :=
    ⟨0, 2, .dNew 0 [("PATH_INFO", .str "/two")]⟩, ⟨0, 2, .fset .request "environ" (.reg 0)⟩,
    ⟨0, 1, .fget .request "environ" 1⟩, ⟨0, 1, .dOp 1 (.get "PATH_INFO")⟩]
 
+/-- (these operations meet the hypothesis of the theorem: none writes a shared object) -/
+example : ∀ op ∈ witnessOps, op.acc.sharedOk := by decide
+
 /-- with the closure cell shared per class, application 1 reads application 2's path -/
 example : (readsOf tsPropsShared 1 Heap.empty witnessOps).getLast? = some (.val (.str "/two")) := by
   decide
